@@ -3,6 +3,7 @@
 pub mod refmodel;
 pub mod proc;
 pub mod zv;
+pub mod bind;
 
 use std::collections::BTreeMap;
 use std::hash::{Hash, Hasher};
@@ -77,6 +78,16 @@ impl Ctx {
             collector: Collector::default(),
             extra,
         }
+    }
+    /// The pinned wall clock (LD_PRELOAD seam), verified against SystemTime::now(); machinery error if absent.
+    pub fn pinned_now(&self) -> u64 {
+        let want: u64 = std::env::var("ZERV_VERIF_NOW").ok().and_then(|s| s.parse().ok())
+            .unwrap_or_else(|| machinery_error("ZERV_VERIF_NOW not set: run through ./check (clock seam)"));
+        let now = std::time::SystemTime::now().duration_since(std::time::UNIX_EPOCH).map(|d| d.as_secs()).unwrap_or(0);
+        if now != want {
+            machinery_error(&format!("clock seam self-test failed: SystemTime::now()={now}, expected {want}"));
+        }
+        want
     }
     pub fn quick(&self) -> bool {
         self.tier == Tier::Quick
